@@ -318,6 +318,39 @@ def runMany (r : Readout) (priors : List Det) (w : Nat → Det → Det) :
     List (Except Err (List (Obs X))) :=
   priors.map (fun p => runPipeline r p w)
 
+/-- `Readout.replace(times=v)`: a new `Readout` built by the constructor from the scalar `v` and
+the *current* start time and mode (what the dask observation path does for every value of the
+scanned parameter `observation.readout.times`) -/
+def Readout.replaceTimes (r : Readout) (v : X) : Except Err Readout :=
+  Readout.make (.scalar v) r.start r.nd
+
+/-- an Observation scanning `observation.readout.times` over `vals`: one run per value -/
+def sweepTimes (r : Readout) (vals : List X) (prior : Det) (w : Nat → Det → Det) :
+    List (Except Err (List (Obs X))) :=
+  vals.map (fun v => match r.replaceTimes v with
+    | .error e => .error e
+    | .ok r' => runPipeline r' prior w)
+
+/-- the `times:` entry of the `readout:` section of a YAML configuration -/
+inductive YamlTimes where
+  | absent                  -- no entry, or `times:` / `times: null`
+  | num (x : X)             -- `times: 2.5`, `times: 0`, `times: true`
+  | seq (xs : List X)       -- `times: [1, 2]`, `times: []`
+  | emptyStr                -- `times: ""`
+  | str (xs : List X)       -- a non-empty string evaluating to `xs`
+
+/-- `configuration.to_readout`: `Readout(**dct)` — a `null` entry is `None`, i.e. not given;
+every other value, however falsy, is handed to the constructor -/
+def srcOfYaml (times : YamlTimes) (file : Option (List X)) : Src :=
+  match times, file with
+  | .absent, none => .default
+  | .absent, some f => .file f
+  | .num x, none => .scalar x
+  | .seq xs, none => .seq xs
+  | .emptyStr, none => .seq []          -- falsy like the empty list: "Sampling times not specified"
+  | .str xs, none => .expr xs
+  | _, some _ => .both
+
 /-- construction, caller's setter operations, run -/
 def session (src : Src) (start : X) (nd : Bool) (ops : List Op) (prior : Det)
     (w : Nat → Det → Det) : Except Err (List (Obs X)) :=
